@@ -10,7 +10,7 @@ import re
 from lib import gram, monitors
 
 ID = 'C20'
-TECHNIQUE = 'trace monitor: last token pulled by the LALR parser (M7) vs token text and physical line in the message'
+TECHNIQUE = 'trace monitor: last token pulled by the LALR parser (M7) vs token text and physical line in the message; erroneous texts also from a coverage-guided corpus (atheris)'
 RULE = ('valid multi-line programs (random derivations of the grammar, 1-6 statements, separators drawn from ; \\n \\r\\n, '
         'line breaks / CRLF / comments inside brackets) made invalid by (a) inserting one stray token of every kind at every '
         'token position and (b) truncating at every token boundary; plus directed cases. A case is non-trivial when the real '
